@@ -662,10 +662,26 @@ package erpc
 
 // ---- C06: whatever is received, the reader ends in the disconnect routine -------
 //@ ghost global disconnectRuns int
-//@ trusted (*session).readDisconnected
+//@ trusted (*pluginSingleContainer).postDisconnect
 //@   flags libframe
-//@   modifies allof(type(session)), allof(type(socket.socket)), allof(type(callCmd)), lockset, waitgroups
+//@   modifies allof(type(session)), allof(type(socket.socket)), lockset, waitgroups
+// disconnect handling. Trusted for its callers (frame assumed); under C02 its body is
+// verified for one thing: unless the session is already closed or closing
+// passively, the pending calls are swept (cancel loop) on every path, also when
+// the local side is closing actively.
+//@ ghost global callSweeps int
+//@ iface github.com/henrylee2cn/goutil.Map.Range in erpc.(*session).readDisconnected
+//@   flags libframe
+//@   modifies allof(type(callCmd)), waitgroups, channels, ghost.callSweeps
+//@   ghostset ghost.callSweeps = old(ghost.callSweeps) + 1
+//@ func (*session).readDisconnected
+//@   property C02
+//@   flags libframe frame-unchecked
+//@   requires @C02 sessShape(s) && s.callCmdMap != nil && s.peer.sessHub != nil
+//@   requires?[session-lock-free] @C02 !held(addr(s.lock))
+//@   modifies allof(type(session)), allof(type(socket.socket)), allof(type(callCmd)), lockset, waitgroups, channels, ghost.callSweeps, ghost.disconnectRuns
 //@   ghostset ghost.disconnectRuns = old(ghost.disconnectRuns) + 1
+//@   ensures[pending-calls-swept] @C02 old(s.status) != statusPassiveClosed && old(s.status) != statusActiveClosed && old(s.status) != statusPassiveClosing ==> ghost.callSweeps == old(ghost.callSweeps) + 1
 // the goroutine pool: a function it accepts runs exactly once, later, on another
 // goroutine; a refused function never runs (assumption about goutil/pool)
 //@ ghost global handleScheduled int
